@@ -103,6 +103,13 @@ fn build(c: &'static Coin, case: &Case) -> ChainBuilder {
             }
         }
         txs.extend(mix_txs(case.mix, h));
+        // "per coinbase": every coinbase-shaped transaction counts, wherever it stands in the block and however many there are
+        if case.label == "several coinbase-shaped transactions in a block" {
+            txs.push(coinbase(h, 77, vec![pay(3, reward + 4100 + i as u64), pay(4, 1)]));
+            if i % 2 == 1 {
+                txs.insert(0, coinbase(h, 78, vec![pay(5, reward.saturating_sub(10))]));
+            }
+        }
         if case.types_world && i == 0 {
             let scripts = representatives(c, true);
             for (k, chunk) in scripts.chunks(5).enumerate() {
@@ -173,6 +180,9 @@ pub fn run() -> Report {
             cases.push(Case { coin: cn, base: 0, times: (0..n).map(|i| 1000 + 600 * i as u32).collect(), mix: 1, cb_delta: 31337, types_world: false, label: "coinbases above and below the subsidy in one range" });
         }
         cases.push(Case { coin: cn, base: 0, times: vec![1000, 2000, 1500], mix: 1, cb_delta: 7, types_world: true, label: "every script type" });
+        for mix in [0u8, 1, 2] {
+            cases.push(Case { coin: cn, base: 0, times: vec![1000, 1600, 2200, 2800], mix, cb_delta: 720, types_world: false, label: "several coinbase-shaped transactions in a block" });
+        }
         for n in [2usize, 3, 5, 6, 11] {
             for mix in [0u8, 1, 4] {
                 cases.push(Case { coin: cn, base: 0, times: (0..n).map(|i| 1000 + 450 * i as u32).collect(), mix, cb_delta: 40, types_world: false, label: "blocks without transactions" });
